@@ -1446,6 +1446,8 @@ class IMAPClientCommand:
         r = self._p_re(_number_re)
         assert r
         end = int(r)
+        if end < 1:
+            raise BadSyntax("the length of a partial fetch must be at least 1")
         self._p_simple_string(">")
         return (start, end)
 
@@ -1477,18 +1479,27 @@ class IMAPClientCommand:
         # So, see if we have a list of numbers separated by '.'
         #
         sect_list: list[int | str | tuple[str, list[str]]] = []
-        try:
-            while True:
-                sect_list.append(int(self._p_re(_number_re)))
-                self._p_simple_string(".")
-        except NoMatch:
-            pass
+        dangling_dot = False
+        while True:
+            num = self._p_re(_number_re, silent=True)
+            if num is None:
+                break
+            if int(num) < 1:
+                raise BadSyntax("part numbers start at 1")
+            sect_list.append(int(num))
+            dangling_dot = self._p_simple_string(".", silent=True) is not None
+            if not dangling_dot:
+                break
 
         # At this point if the next character is ']' then we are at the
         # end of our subsection list.
         #
         if self._p_simple_string("]", silent=True) is not None:
+            if dangling_dot:
+                raise BadSyntax("'.' must be followed by a part specifier")
             return sect_list
+        if sect_list and not dangling_dot:
+            raise BadSyntax("expected '.' or ']' after a part number")
 
         # Now we either have one of our known strings. If sect_list is not
         # empty we may also have the string 'MIME'
@@ -1623,8 +1634,8 @@ class IMAPClientCommand:
         """
         if val.isdigit():
             num = int(val)
-            if num < 0:  # 0 is a valid uid...
-                raise SyntaxError(
+            if num < 1:
+                raise BadSyntax(
                     f"message sequence numbers must be greater then 0: {num}"
                 )
             return num
